@@ -113,6 +113,55 @@ func (fr *Frame) safety(label string, p token.Pos, goal *Term) {
 	fr.oblige("safety", label, "", p, goal)
 }
 
+// checkGuard emits the guarded-by obligations for a write to loc (and, for
+// aggregate writes, to the guarded fields inside it).
+func (fr *Frame) checkGuard(loc *Term, typ types.Type, p token.Pos, what string) {
+	w := fr.w()
+	if len(w.guards) == 0 || (fr.cx.bc != nil && fr.cx.bc.C.Unguarded) {
+		return
+	}
+	d := def(loc)
+	if locCtor(d) == "Fld" {
+		var fid int
+		fmt.Sscan(d.args[1].op, &fid)
+		if bg := w.guards[fid]; bg != nil {
+			fr.guardObligation(bg, d.args[0], p, what)
+		}
+	}
+	// aggregate write: guarded fields nested inside
+	if isStructType(typ) {
+		si := w.structInfo(typ)
+		for _, f := range si.Fields {
+			if bg := w.guards[f.FID]; bg != nil {
+				fr.guardObligation(bg, loc, p, what)
+			} else if isStructType(f.Type) {
+				fr.checkGuard(fr.b().Fld(loc, f.FID), f.Type, p, what)
+			}
+		}
+	}
+}
+
+func (fr *Frame) guardObligation(bg *boundGuard, self *Term, p token.Pos, what string) {
+	env := &SpecEnv{cx: fr.cx, pkg: bg.pkg, vars: map[string]Val{"self": {t: self, typ: types.NewPointer(bg.structT)}}, cur: fr.st, old: fr.entry}
+	g := fr.evalClause(env, bg.g.Cond)
+	if g == nil {
+		return
+	}
+	label := bg.g.TypeName + "." + bg.g.Field
+	if fr.fn != fr.cx.fn {
+		label += "@" + strings.TrimPrefix(shortName(fr.fn.String()), "txfile.")
+	}
+	props := append([]string{}, fr.props()...)
+	for _, gp := range bg.g.Props {
+		if !propsContain(props, gp) {
+			props = append(props, gp)
+		}
+	}
+	o := fr.cx.newObligation("guarded-by", label, bg.g.Cond.Text, fr.pos(p), fr.reach, g, props)
+	_ = o
+	fr.cx.assume(fr.b().Implies(fr.reach, g))
+}
+
 func (fr *Frame) assume(t *Term) {
 	fr.cx.assume(fr.b().Implies(fr.reach, t))
 }
@@ -596,6 +645,82 @@ func (fr *Frame) backEdge(from, head *ssa.BasicBlock) {
 	}
 	// frame of the loop body
 	fr.frameCheck(fmt.Sprintf("loop%d", ls.ordinal), ls.headSt, fr.st, ls.mods, from.Instrs[len(from.Instrs)-1].Pos())
+}
+
+type frameTo struct {
+	reach *Term
+	st    *State
+}
+
+// frameCheckMulti is frameCheck for several end states (one per return path):
+// one obligation per heap, the conjunction over the paths.
+func (fr *Frame) frameCheckMulti(label string, from *State, tos []frameTo, mods []ModLoc, p token.Pos) {
+	b, w := fr.b(), fr.w()
+	names := map[string]bool{}
+	for _, t := range tos {
+		for k := range t.st.heaps {
+			names[k] = true
+		}
+	}
+	for _, hn := range sortedKeys(names) {
+		hf := from.heap(fr.cx, hn)
+		differs := false
+		for _, t := range tos {
+			if def(t.st.heap(fr.cx, hn)) != def(hf) {
+				differs = true
+			}
+		}
+		if !differs {
+			continue
+		}
+		srt := w.heapSort[hn]
+		if arrayKeySort(srt) != SLoc {
+			continue
+		}
+		vs := arrayValSort(srt)
+		l := b.Const("frame_l", SLoc)
+		var allowed []*Term
+		allowed = append(allowed, fr.cx.rootIsNew(l))
+		if len(w.exemptFID) > 0 {
+			var ids []*Term
+			for fid := range w.exemptFID {
+				ids = append(ids, b.Eq(b.App("fid", SInt, l), b.Int(int64(fid))))
+			}
+			sort.Slice(ids, func(i, j int) bool { return ids[i].id < ids[j].id })
+			allowed = append(allowed, b.And(b.mk("(_ is Fld)", SBool, l), b.Or(ids...)))
+		}
+		isMapHeap := strings.HasPrefix(hn, "M_") || strings.HasPrefix(hn, "MD_") || strings.HasPrefix(hn, "ML_")
+		all := false
+		for _, m := range mods {
+			if m.all {
+				all = true
+				continue
+			}
+			if isMapHeap {
+				if m.mapp != nil {
+					allowed = append(allowed, b.Eq(l, m.mapp))
+				}
+				continue
+			}
+			if m.mapp != nil {
+				continue
+			}
+			allowed = append(allowed, fr.cx.inMod(l, vs, m))
+		}
+		if all {
+			continue
+		}
+		ok := b.Name("frame_allowed", b.Or(allowed...))
+		var cs []*Term
+		for _, t := range tos {
+			ht := t.st.heap(fr.cx, hn)
+			if def(ht) == def(hf) {
+				continue
+			}
+			cs = append(cs, b.Implies(t.reach, b.Or(ok, b.Eq(b.Select(ht, l), b.Select(hf, l)))))
+		}
+		fr.oblige("frame", label+"."+hn, "only the locations in `modifies` change", p, b.And(cs...))
+	}
 }
 
 // frameCheck emits one obligation per heap that differs between `from` and
